@@ -1,5 +1,6 @@
 import Okane.Model.ImportCsv
 import Okane.Lemmas.ImportTxn
+import Okane.Lemmas.ImportConvCsv
 /-!
 # C16 — CSV import books each row with the right sign, amount and balance
 
@@ -436,5 +437,576 @@ example :
         | _ => false)
      | _ => false) = true := by
   decide +kernel
+
+/-! ## acceptance with currency conversions, and with zero charges
+
+A row with a conversion prints `amount c @ r sc` / `∓|tr| sc` (`price_of_primary`) or `amount c` / `∓|tr| sc @ r c`
+(`price_of_secondary`).  The book-keeping (no commodity has a declared precision in the printed ledger, so nothing
+is rounded) accepts it exactly when the two sides cancel after applying the rate: `Txn.ConvPrimary.consistent`
+(`|tr| = r·|amount|`), `Txn.ConvSecondary.consistent` (`|amount| = r·|tr|`), with `r ≠ 0`
+(`Lemmas/ImportConvTxn.lean`).  On the CSV row that is `ConvConsistent` (`Lemmas/ImportConvCsv.lean`). -/
+
+/-- **C16_accepts (conversions, zero charges).**  Given that the account held `b₀` beforehand, a CSV statement whose
+running-balance column is consistent and whose rows are either single-commodity with no or only zero charges, or
+carry a conversion that is consistent with its rate (and no charge), imports into a ledger that the book-keeping
+model accepts, and the account ends at the statement's last balance. -/
+theorem C16_accepts_conversion (env : CsvEnv) (cfg : CsvCfg) (header : List String) (records : List (List String))
+    (txns : List Txn) (c : String) (date : Date) (b₀ : Dec)
+    (_himp : csvImport env cfg header records = .ok txns)
+    (hc : c ≠ "") (hne : "Equity:Opening" ≠ cfg.account)
+    (hrows : ∀ t ∈ txns, t.OtherAccounts cfg.account ∧
+      ((t.Mono c ∧ t.transferredAmount = none ∧ ∀ ch ∈ t.charges, ch.amount.value.isZero = true) ∨
+       (t.charges = [] ∧ t.ConvRow c)))
+    (hbal : ConsistentRunningBalance c b₀.toRat txns) :
+    ∃ trs st, ledgerOf cfg.account txns = .ok trs ∧
+      process (Entry.txn (fundTxn cfg.account date b₀ c) :: trs.map Entry.txn) = .ok st ∧
+      Amount.getPart (Balance.get st.bal cfg.account) c = runX b₀.toRat txns ∧
+      (∀ t b, txns.getLast? = some t → t.balance = some ⟨b, c⟩ →
+        Amount.getPart (Balance.get st.bal cfg.account) c = b.toRat) := by
+  have hrun : ∀ (l : List Txn) (x : Rat),
+      (∀ t ∈ l, t.OtherAccounts cfg.account ∧
+        ((t.Mono c ∧ t.transferredAmount = none ∧ ∀ ch ∈ t.charges, ch.amount.value.isZero = true) ∨
+         (t.charges = [] ∧ t.ConvRow c))) →
+      ConsistentRunningBalance c x l → RunOKx cfg.account c x l := by
+    intro l
+    induction l with
+    | nil => intro _ _ _; trivial
+    | cons t ts ih =>
+      intro x hp hb
+      obtain ⟨ho, hrow⟩ := hp t (by simp)
+      obtain ⟨hbt, hrest⟩ := hb
+      refine ⟨?_, ho, Or.inr hbt, ih _ (fun t' h' => hp t' (by simp [h'])) hrest⟩
+      rcases hrow with ⟨hm, htr, hch⟩ | hconv
+      · exact Or.inl ⟨hm, Txn.balanced_of_zero_charges t htr hch⟩
+      · exact Or.inr hconv
+  obtain ⟨trs, st, hl, hp, hv⟩ := run_acceptsx cfg.account c hc hne date b₀ txns (hrun txns _ hrows hbal)
+  exact ⟨trs, st, hl, hp, hv, fun t b hlast hb => by rw [hv]; exact runX_last c txns _ hbal t b hlast hb⟩
+
+/-- **C16_accepts (zero charges).**  `C16_accepts_full` restricted to charges that are all zero: the positive
+counterpart of F19 (a `Txn` with zero charges prints `Expenses:Commissions  0.00` postings, which do not disturb the
+balance).  The CSV importer itself never records a zero charge (`C16_zero_charge_dropped`). -/
+theorem C16_accepts_zero_charge (acct c : String) (date : Date) (b₀ : Dec) (txns : List Txn)
+    (hc : c ≠ "") (hne : "Equity:Opening" ≠ acct)
+    (hrows : ∀ t ∈ txns, t.Mono c ∧ t.OtherAccounts acct ∧ t.transferredAmount = none)
+    (hzero : ∀ t ∈ txns, ∀ ch ∈ t.charges, ch.amount.value.isZero = true)
+    (hbal : ConsistentRunningBalance c b₀.toRat txns) :
+    ∃ trs st, ledgerOf acct txns = .ok trs ∧
+      process (Entry.txn (fundTxn acct date b₀ c) :: trs.map Entry.txn) = .ok st ∧
+      Amount.getPart (Balance.get st.bal acct) c = runX b₀.toRat txns ∧
+      (∀ t b, txns.getLast? = some t → t.balance = some ⟨b, c⟩ →
+        Amount.getPart (Balance.get st.bal acct) c = b.toRat) := by
+  have hrun : ∀ (l : List Txn) (x : Rat),
+      (∀ t ∈ l, t.Mono c ∧ t.OtherAccounts acct ∧ t.transferredAmount = none) →
+      (∀ t ∈ l, ∀ ch ∈ t.charges, ch.amount.value.isZero = true) →
+      ConsistentRunningBalance c x l → RunOK acct c x l := by
+    intro l
+    induction l with
+    | nil => intro _ _ _ _; trivial
+    | cons t ts ih =>
+      intro x hp hz hb
+      obtain ⟨hm, ho, htr⟩ := hp t (by simp)
+      obtain ⟨hbt, hrest⟩ := hb
+      exact ⟨hm, Txn.balanced_of_zero_charges t htr (hz t (by simp)), ho, Or.inr hbt,
+        ih _ (fun t' h' => hp t' (by simp [h'])) (fun t' h' => hz t' (by simp [h'])) hrest⟩
+  obtain ⟨trs, st, hl, hp, hv⟩ := run_accepts acct c hc hne date b₀ txns (hrun txns _ hrows hzero hbal)
+  exact ⟨trs, st, hl, hp, hv, fun t b hlast hb => by rw [hv]; exact runX_last c txns _ hbal t b hlast hb⟩
+
+/-- **A zero (or empty, or absent) charge cell leaves no charge** in the transaction: the importer only records
+`!value.is_zero()` charges, and the conversion block does not touch them. -/
+theorem C16_zero_charge_dropped (env : CsvEnv) (cfg : CsvCfg) (fm : FieldMap) (rec : List String) (v : RowValues)
+    (txn : Txn) (i : Bool) (h : buildTxn env cfg fm rec v = .ok (txn, i))
+    (hcell : ∀ cell d, fm.extract .charge rec = .ok (some cell) → strToCommaDecimal env cell = .ok (some d) →
+      d.isZero = true) :
+    txn.charges = [] := by
+  have hbase : ∀ t, baseTxn env cfg fm rec v = .ok t → t.charges = [] := by
+    intro t hb
+    unfold baseTxn at hb
+    repeat' split at hb
+    all_goals first | (simp at hb; done) | skip
+    all_goals simp only [Outcome.ok.injEq] at hb
+    all_goals subst hb
+    all_goals simp [Txn.new, Txn.codeOption, Txn.destAccountOption, Txn.setClearState, Txn.addComment, Txn.setBalance,
+      Txn.addCharge]
+    all_goals (try (split <;> simp_all))
+    all_goals (try (split <;> simp_all))
+    all_goals (have hz := hcell _ _ ‹fm.extract FieldKey.charge rec = Outcome.ok (some _)› ‹strToCommaDecimal env _ = Outcome.ok (some _)›; simp_all)
+  unfold buildTxn at h
+  split at h <;> try (simp at h; done)
+  rename_i t hb
+  cases hsel : selectedConversion env cfg v with
+  | none =>
+    rw [hsel] at h
+    simp only [Outcome.ok.injEq, Prod.mk.injEq] at h
+    rw [← h.1]; exact hbase t hb
+  | some conv =>
+    rw [hsel] at h
+    obtain ⟨_, _, hr, _⟩ := baseTxn_spec env cfg fm rec v t hb
+    obtain ⟨r, sc, tr, _, _, _, htxn, _⟩ := applyConversion_spec t txn conv v.amount v.commodity v.rate
+      v.secondaryAmount v.secondaryCommodity i hr h
+    rw [htxn]; exact hbase t hb
+
+/-- the conversion in force for the row (if any) names a secondary commodity and is consistent with the row's
+figures (`ConvConsistent`); `inexact` is the importer's own verdict on its division -/
+def RowConsistent (env : CsvEnv) (cfg : CsvCfg) (v : RowValues) (inexact : Bool) : Prop :=
+  match selectedConversion env cfg v with
+  | none => True
+  | some conv =>
+    (∀ sc, conv.commodity.or v.secondaryCommodity = some sc → sc ≠ "") ∧
+    ∀ r, v.rate = some r → ConvConsistent conv v.amount r v.secondaryAmount inexact
+
+/-- **One CSV row.**  A row without (non-zero) charge whose conversion — if one applies — is consistent becomes a
+transaction the book-keeping accepts (`Txn.RowOK`), with the row's amount, balance and counter-account. -/
+theorem C16_row_ok (env : CsvEnv) (cfg : CsvCfg) (fm : FieldMap) (rec : List String) (v : RowValues)
+    (txn : Txn) (i : Bool) (h : buildTxn env cfg fm rec v = .ok (txn, i))
+    (hch : txn.charges = []) (hcons : RowConsistent env cfg v i) :
+    txn.RowOK v.commodity ∧ txn.amount = ⟨v.amount, v.commodity⟩ ∧
+      txn.balance = v.balance.map (fun b => ⟨b, v.commodity⟩) ∧
+      txn.destAccount = (rowFragment env cfg v).account ∧ txn.date = v.date := by
+  unfold buildTxn at h
+  split at h <;> try (simp at h; done)
+  rename_i t hb
+  obtain ⟨ha, hd, hr, htr, hbl, hdest, _⟩ := baseTxn_spec env cfg fm rec v t hb
+  unfold RowConsistent at hcons
+  cases hsel : selectedConversion env cfg v with
+  | none =>
+    rw [hsel] at h
+    simp only [Outcome.ok.injEq, Prod.mk.injEq] at h
+    obtain ⟨ht, _⟩ := h
+    subst ht
+    refine ⟨Or.inl ⟨⟨by rw [ha], by rw [hch]; simp, by rw [htr]; simp, hr, ?_⟩, ?_⟩, ha, hbl, hdest, hd⟩
+    · intro b hb'
+      rw [hbl] at hb'
+      cases hvb : v.balance with
+      | none => simp [hvb] at hb'
+      | some x => simp [hvb] at hb'; rw [← hb']
+    · exact Txn.balanced_of_zero_charges t htr (by rw [hch]; simp)
+  | some conv =>
+    rw [hsel] at h hcons
+    obtain ⟨hscne, hcc⟩ := hcons
+    obtain ⟨hrow, h1, h2, h3, h4, h5⟩ := applyConversion_convRow t txn conv v.amount v.commodity v.rate
+      v.secondaryAmount v.secondaryCommodity i ha hr h hscne hcc
+    exact ⟨Or.inr ⟨hch, hrow⟩, by rw [h1, ha], by rw [h3, hbl], by rw [h4, hdest], by rw [h5, hd]⟩
+
+theorem csvRows_mem (env : CsvEnv) (cfg : CsvCfg) (fm : FieldMap) : ∀ (records : List (List String))
+    (ts : List (Txn × Bool)), csvRows env cfg fm records = .ok ts →
+    ∀ p ∈ ts, ∃ rec ∈ records, csvRow env cfg fm rec = .ok (some p) := by
+  intro records
+  induction records with
+  | nil => intro ts h p hp; simp [csvRows] at h; subst h; simp at hp
+  | cons rec rest ih =>
+    intro ts h p hp
+    unfold csvRows at h
+    split at h <;> try (simp at h; done)
+    rename_i r hrow
+    split at h <;> try (simp at h; done)
+    rename_i ts' hrest
+    simp only [Outcome.ok.injEq] at h
+    subst h
+    rcases List.mem_append.1 hp with h1 | h1
+    · cases r with
+      | none => simp at h1
+      | some q =>
+        simp at h1
+        subst h1
+        exact ⟨rec, by simp, hrow⟩
+    · obtain ⟨rec', hmem, hr'⟩ := ih ts' hrest p h1
+      exact ⟨rec', by simp [hmem], hr'⟩
+
+theorem csvRow_some (env : CsvEnv) (cfg : CsvCfg) (fm : FieldMap) (rec : List String) (p : Txn × Bool)
+    (h : csvRow env cfg fm rec = .ok (some p)) :
+    ∃ v, readRow env cfg fm rec = .ok (some v) ∧ buildTxn env cfg fm rec v = .ok p := by
+  unfold csvRow at h
+  split at h <;> try (simp at h; done)
+  rename_i v hv
+  split at h <;> try (simp at h; done)
+  rename_i r hr
+  simp only [Outcome.ok.injEq, Option.some.injEq] at h
+  subst h
+  exact ⟨v, hv, hr⟩
+
+/-- what `C16_accepts_conversion_rows` asks of one decoded row: it is in the account's commodity, its charge cell
+(if the column exists) is empty or zero, its counter-account is not the imported account, and its conversion (if
+any) is consistent -/
+structure RowAcceptable (env : CsvEnv) (cfg : CsvCfg) (fm : FieldMap) (c : String) (rec : List String)
+    (v : RowValues) (inexact : Bool) : Prop where
+  commodity : v.commodity = c
+  nocharge : ∀ cell d, fm.extract .charge rec = .ok (some cell) → strToCommaDecimal env cell = .ok (some d) →
+    d.isZero = true
+  other : ∀ fb, fb = "Income:Unknown" ∨ fb = "Expenses:Unknown" →
+    (rowFragment env cfg v).account.getD fb ≠ cfg.account
+  consistent : RowConsistent env cfg v inexact
+
+/-- **C16_accepts, on the CSV rows.**  Every imported record is in the account's commodity `c`, has no (or a zero)
+charge, books its counter-posting elsewhere, and — when a conversion applies to it — has a non-empty secondary
+commodity and figures consistent with its rate (`ConvConsistent`); the running-balance column is consistent.
+Then `fund b₀ :: import` is accepted by the book-keeping model and the account ends at the last balance. -/
+theorem C16_accepts_conversion_rows (env : CsvEnv) (cfg : CsvCfg) (header : List String)
+    (records : List (List String)) (txns : List Txn) (c : String) (date : Date) (b₀ : Dec)
+    (himp : csvImport env cfg header records = .ok txns)
+    (hc : c ≠ "") (hne : "Equity:Opening" ≠ cfg.account) (hcomm : "Expenses:Commissions" ≠ cfg.account)
+    (hrows : ∀ fm, FieldMap.tryNew cfg.fields header = .ok fm → ∀ rec ∈ records, ∀ v txn i,
+      readRow env cfg fm rec = .ok (some v) → buildTxn env cfg fm rec v = .ok (txn, i) →
+      RowAcceptable env cfg fm c rec v i)
+    (hbal : ConsistentRunningBalance c b₀.toRat txns) :
+    ∃ trs st, ledgerOf cfg.account txns = .ok trs ∧
+      process (Entry.txn (fundTxn cfg.account date b₀ c) :: trs.map Entry.txn) = .ok st ∧
+      Amount.getPart (Balance.get st.bal cfg.account) c = runX b₀.toRat txns ∧
+      (∀ t b, txns.getLast? = some t → t.balance = some ⟨b, c⟩ →
+        Amount.getPart (Balance.get st.bal cfg.account) c = b.toRat) := by
+  obtain ⟨fm, ts, hfm, hcsv, htx, _⟩ := C16_order env cfg header records txns himp
+  have hrowOK : ∀ t ∈ txns, t.RowOK c ∧ t.OtherAccounts cfg.account := by
+    intro t ht
+    have hmem : t ∈ ts.map Prod.fst := by
+      rw [htx] at ht
+      unfold applyRowOrder at ht
+      cases ho : cfg.rowOrder <;> simp only [ho] at ht
+      · exact ht
+      · exact List.mem_reverse.1 ht
+    obtain ⟨p, hp, hpt⟩ := List.mem_map.1 hmem
+    obtain ⟨rec, hrec, hrow⟩ := csvRows_mem env cfg fm records ts hcsv p hp
+    obtain ⟨v, hv, hb⟩ := csvRow_some env cfg fm rec p hrow
+    obtain ⟨t', i⟩ := p
+    simp only at hpt
+    subst hpt
+    have hacc := hrows fm hfm rec hrec v t' i hv hb
+    have hnc := C16_zero_charge_dropped env cfg fm rec v t' i hb hacc.nocharge
+    obtain ⟨h1, _, _, h4, _⟩ := C16_row_ok env cfg fm rec v t' i hb hnc hacc.consistent
+    rw [hacc.commodity] at h1
+    refine ⟨h1, ⟨?_, hcomm⟩⟩
+    intro fb hfb
+    rw [h4]
+    exact hacc.other fb hfb
+  have hrun : ∀ (l : List Txn) (x : Rat), (∀ t ∈ l, t.RowOK c ∧ t.OtherAccounts cfg.account) →
+      ConsistentRunningBalance c x l → RunOKx cfg.account c x l := by
+    intro l
+    induction l with
+    | nil => intro _ _ _; trivial
+    | cons t ts ih =>
+      intro x hp hb
+      obtain ⟨hrow, ho⟩ := hp t (by simp)
+      obtain ⟨hbt, hrest⟩ := hb
+      exact ⟨hrow, ho, Or.inr hbt, ih _ (fun t' h' => hp t' (by simp [h'])) hrest⟩
+  obtain ⟨trs, st, hl, hp, hv⟩ := run_acceptsx cfg.account c hc hne date b₀ txns (hrun txns _ hrowOK hbal)
+  exact ⟨trs, st, hl, hp, hv, fun t b hlast hb => by rw [hv]; exact runX_last c txns _ hbal t b hlast hb⟩
+
+/-! ## non-vacuity and negation witnesses for the conversion theorems -/
+
+/-- decoders for the conversion examples -/
+def exConvEnv : CsvEnv :=
+  { parseAmt := fun s =>
+      if s = "-50.00" then some ⟨true, 5000, 2⟩ else if s = "950.00" then some ⟨false, 95000, 2⟩
+      else if s = "25.5" then some ⟨false, 255, 1⟩ else if s = "975.50" then some ⟨false, 97550, 2⟩
+      else if s = "0.8" then some ⟨false, 8, 1⟩ else if s = "62.50" then some ⟨false, 6250, 2⟩
+      else if s = "62.49" then some ⟨false, 6249, 2⟩ else if s = "150" then some ⟨false, 150, 0⟩
+      else if s = "3" then some ⟨false, 3, 0⟩ else if s = "1" then some ⟨false, 1, 0⟩
+      else if s = "0.00" then some ⟨false, 0, 2⟩ else none
+    parseDate := fun s => if s = "2024-01-02" then some ⟨2024, 1, 2⟩ else if s = "2024-01-03" then some ⟨2024, 1, 3⟩ else none
+    cap := fun _ _ => none }
+
+/-- columns: date, payee, amount, balance, rate, secondary amount, secondary commodity, charge -/
+def exConvCfg (conv : Conversion) : CsvCfg :=
+  { account := "Assets:Bank", accountType := .asset, operator := some "The Bank", primary := "USD", conversion := conv,
+    rowOrder := .oldToNew,
+    fields := [(.date, .index 1), (.payee, .index 2), (.amount, .index 3), (.balance, .index 4), (.rate, .index 5),
+      (.secondaryAmount, .index 6), (.secondaryCommodity, .index 7), (.charge, .index 8)],
+    rewrite := [] }
+
+def exConvHeader : List String := ["date", "payee", "amount", "balance", "rate", "counter", "ccy", "charge"]
+
+/-- `-50.00 USD` paid as `62.50 EUR` at `0.8 USD` per EUR (charge cell `0.00`), then a plain refund -/
+def exConvRecords : List (List String) :=
+  [["2024-01-02", "shop", "-50.00", "950.00", "0.8", "62.50", "EUR", "0.00"],
+   ["2024-01-03", "refund", "25.5", "975.50", "", "", "", ""]]
+
+def exConvTxn1 : Txn :=
+  { date := ⟨2024, 1, 2⟩, payee := "shop", amount := ⟨⟨true, 5000, 2⟩, "USD"⟩, clearState := some .pending,
+    balance := some ⟨⟨false, 95000, 2⟩, "USD"⟩, rates := [("EUR", ⟨⟨false, 8, 1⟩, "USD"⟩)],
+    transferredAmount := some ⟨⟨false, 6250, 2⟩, "EUR"⟩ }
+
+def exConvTxn2 : Txn :=
+  { date := ⟨2024, 1, 3⟩, payee := "refund", amount := ⟨⟨false, 255, 1⟩, "USD"⟩, clearState := some .pending,
+    balance := some ⟨⟨false, 97550, 2⟩, "USD"⟩ }
+
+/-- the default conversion (`extract`, `price_of_secondary`) applies to the first row only -/
+theorem exConv_import : csvImport exConvEnv (exConvCfg {}) exConvHeader exConvRecords = .ok [exConvTxn1, exConvTxn2] := by
+  rfl
+
+theorem exConv_other (t : Txn) (h : t.destAccount = none) : t.OtherAccounts "Assets:Bank" := by
+  refine ⟨?_, by decide⟩
+  intro fb hfb
+  rw [h]
+  rcases hfb with h1 | h1 <;> subst h1 <;> decide
+
+theorem exConv_rows : ∀ t ∈ [exConvTxn1, exConvTxn2], t.OtherAccounts "Assets:Bank" ∧
+    ((t.Mono "USD" ∧ t.transferredAmount = none ∧ ∀ ch ∈ t.charges, ch.amount.value.isZero = true) ∨
+     (t.charges = [] ∧ t.ConvRow "USD")) := by
+  intro t ht
+  simp only [List.mem_cons, List.mem_nil_iff, or_false] at ht
+  rcases ht with h | h <;> subst h
+  · refine ⟨exConv_other _ rfl, Or.inr ⟨rfl, "EUR", ⟨false, 6250, 2⟩, ⟨false, 8, 1⟩, by decide, by decide,
+      by decide +kernel, rfl, rfl, Or.inr ⟨rfl, rfl, by decide +kernel⟩⟩⟩
+  · refine ⟨exConv_other _ rfl, Or.inl ⟨⟨rfl, ?_, ?_, rfl, ?_⟩, rfl, ?_⟩⟩
+    · intro ch hch; simp [exConvTxn2] at hch
+    · intro tr htr; simp [exConvTxn2] at htr
+    · intro b hb; simp [exConvTxn2] at hb; subst hb; rfl
+    · intro ch hch; simp [exConvTxn2] at hch
+
+theorem exConv_balance : ConsistentRunningBalance "USD" (⟨false, 100000, 2⟩ : Dec).toRat [exConvTxn1, exConvTxn2] :=
+  ⟨⟨⟨false, 95000, 2⟩, rfl, by decide +kernel⟩, ⟨⟨false, 97550, 2⟩, rfl, by decide +kernel⟩, trivial⟩
+
+/-- non-vacuity of `C16_accepts_conversion`: its hypotheses hold for the statement above (a converted row and a
+plain row), and the account ends at `975.50` -/
+example : ∃ trs st, ledgerOf "Assets:Bank" [exConvTxn1, exConvTxn2] = .ok trs ∧
+    process (Entry.txn (fundTxn "Assets:Bank" ⟨2024, 1, 1⟩ ⟨false, 100000, 2⟩ "USD") :: trs.map Entry.txn) = .ok st ∧
+    Amount.getPart (Balance.get st.bal "Assets:Bank") "USD" = (⟨false, 97550, 2⟩ : Dec).toRat := by
+  obtain ⟨trs, st, h1, h2, _, h4⟩ := C16_accepts_conversion exConvEnv (exConvCfg {}) exConvHeader exConvRecords
+    [exConvTxn1, exConvTxn2] "USD" ⟨2024, 1, 1⟩ ⟨false, 100000, 2⟩ exConv_import (by decide) (by decide)
+    exConv_rows exConv_balance
+  exact ⟨trs, st, h1, h2, h4 exConvTxn2 ⟨false, 97550, 2⟩ rfl rfl⟩
+
+/-- non-vacuity of `C16_accepts_zero_charge`: a row whose only charge is `0.00` -/
+def exZeroChargeTxn : Txn :=
+  { date := ⟨2024, 1, 2⟩, payee := "shop", amount := ⟨⟨true, 5000, 2⟩, "USD"⟩, clearState := some .pending,
+    balance := some ⟨⟨false, 95000, 2⟩, "USD"⟩, charges := [⟨"The Bank", ⟨⟨false, 0, 2⟩, "USD"⟩⟩] }
+
+example : ∃ trs st, ledgerOf "Assets:Bank" [exZeroChargeTxn] = .ok trs ∧
+    process (Entry.txn (fundTxn "Assets:Bank" ⟨2024, 1, 1⟩ ⟨false, 100000, 2⟩ "USD") :: trs.map Entry.txn) = .ok st ∧
+    Amount.getPart (Balance.get st.bal "Assets:Bank") "USD" = (⟨false, 95000, 2⟩ : Dec).toRat := by
+  have hm : exZeroChargeTxn.Mono "USD" := by
+    refine ⟨rfl, ?_, ?_, rfl, ?_⟩
+    · intro ch hch; simp [exZeroChargeTxn] at hch; subst hch; rfl
+    · intro tr htr; simp [exZeroChargeTxn] at htr
+    · intro b hb; simp [exZeroChargeTxn] at hb; subst hb; rfl
+  obtain ⟨trs, st, h1, h2, _, h4⟩ := C16_accepts_zero_charge "Assets:Bank" "USD" ⟨2024, 1, 1⟩ ⟨false, 100000, 2⟩
+    [exZeroChargeTxn] (by decide) (by decide)
+    (fun t ht => by simp at ht; subst ht; exact ⟨hm, exConv_other _ rfl, rfl⟩)
+    (fun t ht ch hch => by simp at ht; subst ht; simp [exZeroChargeTxn] at hch; subst hch; rfl)
+    ⟨⟨⟨false, 95000, 2⟩, rfl, by decide +kernel⟩, trivial⟩
+  exact ⟨trs, st, h1, h2, h4 exZeroChargeTxn ⟨false, 95000, 2⟩ rfl rfl⟩
+
+/-- the whole pipeline on a statement: import, print, fund, book; `some balance` of the account when accepted -/
+def exPipeline (conv : Conversion) (records : List (List String)) : Option Rat :=
+  match csvImport exConvEnv (exConvCfg conv) exConvHeader records with
+  | .ok txns =>
+    (match ledgerOf "Assets:Bank" txns with
+     | .ok trs =>
+       (match process (Entry.txn (fundTxn "Assets:Bank" ⟨2024, 1, 1⟩ ⟨false, 100000, 2⟩ "USD") :: trs.map Entry.txn) with
+        | .ok st => some (Amount.getPart (Balance.get st.bal "Assets:Bank") "USD")
+        | _ => none)
+     | _ => none)
+  | _ => none
+
+/-- the other three modes on the same row: accepted when consistent (`compute` always is for a positive rate and an
+exact quotient): `-50.00 USD @ 150 JPY` / `7500.00 JPY`;  `-50.00 USD` / `62.5 EUR @ 0.8 USD`;
+`-50.00 USD @ 0.8 EUR` / `40.000 EUR` -/
+example : exPipeline { amount := .compute, rate := .priceOfPrimary, commodity := some "JPY" }
+    [["2024-01-02", "shop", "-50.00", "950.00", "150", "1", "JPY", ""]] = some (⟨false, 95000, 2⟩ : Dec).toRat := by
+  decide +kernel
+example : exPipeline { amount := .compute, rate := .priceOfSecondary }
+    [["2024-01-02", "shop", "-50.00", "950.00", "0.8", "1", "EUR", ""]] = some (⟨false, 95000, 2⟩ : Dec).toRat := by
+  decide +kernel
+example : exPipeline { amount := .compute, rate := .priceOfPrimary }
+    [["2024-01-02", "shop", "-50.00", "950.00", "0.8", "1", "EUR", ""]] = some (⟨false, 95000, 2⟩ : Dec).toRat := by
+  decide +kernel
+
+/-- **The consistency condition cannot be dropped.**  The statement's own secondary amount is one cent off the rate
+(`62.49 EUR @ 0.8 USD ≠ 50.00 USD`): the import succeeds, the running balance is consistent, and the book-keeping
+rejects the printed ledger. -/
+theorem C16_inconsistent_conversion_rejected :
+    exPipeline {} [["2024-01-02", "shop", "-50.00", "950.00", "0.8", "62.49", "EUR", ""]] = none ∧
+    (csvImport exConvEnv (exConvCfg {}) exConvHeader
+      [["2024-01-02", "shop", "-50.00", "950.00", "0.8", "62.49", "EUR", ""]]).isOk = true := by
+  constructor <;> decide +kernel
+
+/-- … nor can exactness of the importer's division: `compute`, `price_of_secondary`, `-50.00 ÷ 3` is rounded at 28
+places, and `16.66…67 EUR @ 3 USD` does not cancel `-50.00 USD`. -/
+theorem C16_inexact_conversion_rejected :
+    exPipeline { amount := .compute, rate := .priceOfSecondary }
+      [["2024-01-02", "shop", "-50.00", "950.00", "3", "1", "EUR", ""]] = none ∧
+    (csvImportFlagged exConvEnv (exConvCfg { amount := .compute, rate := .priceOfSecondary }) exConvHeader
+      [["2024-01-02", "shop", "-50.00", "950.00", "3", "1", "EUR", ""]]).map' (List.map Prod.snd) = .ok [true] := by
+  constructor <;> decide +kernel
+
+def exConvFm : FieldMap :=
+  ⟨.column 0, .column 1, .amount (.column 2),
+    [(.date, .column 0), (.payee, .column 1), (.amount, .column 2), (.balance, .column 3), (.rate, .column 4),
+     (.secondaryAmount, .column 5), (.secondaryCommodity, .column 6), (.charge, .column 7)], 7⟩
+
+def exConvRow1 : RowValues :=
+  ⟨⟨2024, 1, 2⟩, "shop", ⟨true, 5000, 2⟩, some ⟨false, 95000, 2⟩, some ⟨false, 6250, 2⟩, some "EUR", none, "USD",
+    some ⟨false, 8, 1⟩⟩
+
+def exConvRow2 : RowValues :=
+  ⟨⟨2024, 1, 3⟩, "refund", ⟨false, 255, 1⟩, some ⟨false, 97550, 2⟩, none, some "", none, "USD", none⟩
+
+/-- non-vacuity of `C16_accepts_conversion_rows`: the hypotheses hold for the CSV statement `exConvRecords`
+(a converted row with a `0.00` charge cell and a plain row with an empty one) -/
+example : ∃ trs st, ledgerOf "Assets:Bank" [exConvTxn1, exConvTxn2] = .ok trs ∧
+    process (Entry.txn (fundTxn "Assets:Bank" ⟨2024, 1, 1⟩ ⟨false, 100000, 2⟩ "USD") :: trs.map Entry.txn) = .ok st ∧
+    Amount.getPart (Balance.get st.bal "Assets:Bank") "USD" = (⟨false, 97550, 2⟩ : Dec).toRat := by
+  obtain ⟨trs, st, h1, h2, _, h4⟩ := C16_accepts_conversion_rows exConvEnv (exConvCfg {}) exConvHeader exConvRecords
+    [exConvTxn1, exConvTxn2] "USD" ⟨2024, 1, 1⟩ ⟨false, 100000, 2⟩ exConv_import (by decide) (by decide) (by decide)
+    (by
+      intro fm hfm rec hrec v txn i hv hb
+      have hfm' : FieldMap.tryNew (exConvCfg {}).fields exConvHeader = .ok exConvFm := by rfl
+      rw [hfm'] at hfm
+      simp only [Outcome.ok.injEq] at hfm
+      subst hfm
+      simp only [exConvRecords, List.mem_cons, List.mem_nil_iff, or_false] at hrec
+      rcases hrec with h | h <;> subst h
+      · have hv' : readRow exConvEnv (exConvCfg {}) exConvFm ["2024-01-02", "shop", "-50.00", "950.00", "0.8", "62.50", "EUR", "0.00"] =
+            .ok (some exConvRow1) := by rfl
+        rw [hv'] at hv
+        simp only [Outcome.ok.injEq, Option.some.injEq] at hv
+        subst hv
+        have hi : i = false := by
+          have hb' : buildTxn exConvEnv (exConvCfg {}) exConvFm ["2024-01-02", "shop", "-50.00", "950.00", "0.8", "62.50", "EUR", "0.00"] exConvRow1 =
+            .ok (exConvTxn1, false) := by rfl
+          rw [hb'] at hb
+          simp only [Outcome.ok.injEq, Prod.mk.injEq] at hb
+          exact hb.2.symm
+        subst hi
+        refine ⟨rfl, ?_, ?_, ?_⟩
+        rotate_left 2
+        · unfold RowConsistent
+          have hsel : selectedConversion exConvEnv (exConvCfg {}) exConvRow1 = some {} := by rfl
+          rw [hsel]
+          refine ⟨?_, ?_⟩
+          · intro sc hsc
+            simp [exConvRow1] at hsc
+            subst hsc; decide
+          · intro r hr
+            simp [exConvRow1] at hr
+            subst hr
+            refine ⟨by decide, ?_⟩
+            intro tr htr
+            simp [exConvRow1] at htr
+            subst htr
+            decide +kernel
+        · intro cell d hcell hd
+          have : cell = "0.00" := by
+            have hc' : FieldMap.extract exConvFm FieldKey.charge ["2024-01-02", "shop", "-50.00", "950.00", "0.8", "62.50", "EUR", "0.00"] =
+              .ok (some "0.00") := by rfl
+            rw [hc'] at hcell
+            simp only [Outcome.ok.injEq, Option.some.injEq] at hcell
+            exact hcell.symm
+          subst this
+          have hd' : strToCommaDecimal exConvEnv "0.00" = .ok (some ⟨false, 0, 2⟩) := by rfl
+          rw [hd'] at hd
+          simp only [Outcome.ok.injEq, Option.some.injEq] at hd
+          subst hd
+          rfl
+        · intro fb hfb
+          rcases hfb with h1 | h1 <;> subst h1 <;> decide
+      · have hv' : readRow exConvEnv (exConvCfg {}) exConvFm ["2024-01-03", "refund", "25.5", "975.50", "", "", "", ""] =
+            .ok (some exConvRow2) := by rfl
+        rw [hv'] at hv
+        simp only [Outcome.ok.injEq, Option.some.injEq] at hv
+        subst hv
+        refine ⟨rfl, ?_, ?_, ?_⟩
+        rotate_left 2
+        · unfold RowConsistent
+          have hsel : selectedConversion exConvEnv (exConvCfg {}) exConvRow2 = none := by rfl
+          rw [hsel]
+          trivial
+        · intro cell d hcell hd
+          have : cell = "" := by
+            have hc' : FieldMap.extract exConvFm FieldKey.charge ["2024-01-03", "refund", "25.5", "975.50", "", "", "", ""] =
+              .ok (some "") := by rfl
+            rw [hc'] at hcell
+            simp only [Outcome.ok.injEq, Option.some.injEq] at hcell
+            exact hcell.symm
+          subst this
+          have hd' : strToCommaDecimal exConvEnv "" = .ok none := by rfl
+          rw [hd'] at hd
+          simp at hd
+        · intro fb hfb
+          rcases hfb with h1 | h1 <;> subst h1 <;> decide)
+    exConv_balance
+  exact ⟨trs, st, h1, h2, h4 exConvTxn2 ⟨false, 97550, 2⟩ rfl rfl⟩
+
+/-! ## the consistency condition is exact -/
+
+/-- **C16_conversion_iff.**  For a row with a conversion (transferred amount `tr sc`, non-zero rate `r` on one of
+the two commodities, no charge) whose balance column is consistent, the book-keeping accepts `fund b₀ :: row`
+**if and only if** the amounts agree with the rate exactly: `|tr| = r·|amount|` when the rate prices the primary
+commodity, `|amount| = r·|tr|` when it prices the secondary (`Txn.ConvConsistent`). -/
+theorem C16_conversion_iff (acct c : String) (date : Date) (b₀ : Dec) (t : Txn) (sc : String) (tr r : Dec)
+    (hc : c ≠ "") (hne : "Equity:Opening" ≠ acct) (hshape : t.ConvShape c sc tr r) (ho : t.OtherAccounts acct)
+    (hbal : ConsistentRunningBalance c b₀.toRat [t]) :
+    (∃ trs st, ledgerOf acct [t] = .ok trs ∧
+      process (Entry.txn (fundTxn acct date b₀ c) :: trs.map Entry.txn) = .ok st) ↔ t.ConvConsistent c sc tr r := by
+  constructor
+  · rintro ⟨trs, st, hl, hp⟩
+    apply Classical.byContradiction
+    intro hcons
+    obtain ⟨res, hres⟩ := run_rejects_inconsistent acct c hc hne date b₀ [] t [] sc tr r trivial hshape ho
+      (Or.inr hbal.1) hcons trs hl
+    rw [hp] at hres
+    simp at hres
+  · intro hcons
+    obtain ⟨trs, st, hl, hp, _⟩ := run_acceptsx acct c hc hne date b₀ [t]
+      ⟨hshape.row_of_consistent hcons, ho, Or.inr hbal.1, trivial⟩
+    exact ⟨trs, st, hl, hp⟩
+
+/-- **C16_conversion_necessary.**  In a statement whose rows up to some row are acceptable, a converted row that is
+not consistent with its rate makes the book-keeping reject the printed ledger at that row (entry `|pre| + 1`, the
+funding transaction being entry 0) as unbalanced — whatever follows. -/
+theorem C16_conversion_necessary (acct c : String) (date : Date) (b₀ : Dec) (pre post : List Txn) (t : Txn)
+    (sc : String) (tr r : Dec) (hc : c ≠ "") (hne : "Equity:Opening" ≠ acct)
+    (hrows : ∀ t' ∈ pre, t'.OtherAccounts acct ∧
+      ((t'.Mono c ∧ t'.transferredAmount = none ∧ ∀ ch ∈ t'.charges, ch.amount.value.isZero = true) ∨
+       (t'.charges = [] ∧ t'.ConvRow c)))
+    (hshape : t.ConvShape c sc tr r) (ho : t.OtherAccounts acct)
+    (hbal : ConsistentRunningBalance c b₀.toRat (pre ++ [t]))
+    (hcons : ¬ t.ConvConsistent c sc tr r) (trs : List Transaction)
+    (hl : ledgerOf acct (pre ++ t :: post) = .ok trs) :
+    ∃ res, process (Entry.txn (fundTxn acct date b₀ c) :: trs.map Entry.txn) =
+      .err (pre.length + 1, .unbalanced res) := by
+  have hsplit : ∀ (l : List Txn) (x : Rat),
+      (∀ t' ∈ l, t'.OtherAccounts acct ∧
+        ((t'.Mono c ∧ t'.transferredAmount = none ∧ ∀ ch ∈ t'.charges, ch.amount.value.isZero = true) ∨
+         (t'.charges = [] ∧ t'.ConvRow c))) →
+      ConsistentRunningBalance c x (l ++ [t]) →
+      RunOKx acct c x l ∧ ∃ b, t.balance = some ⟨b, c⟩ ∧ b.toRat = runX x l + t.amount.value.toRat := by
+    intro l
+    induction l with
+    | nil => intro x _ hb; exact ⟨trivial, hb.1⟩
+    | cons t' ts ih =>
+      intro x hp hb
+      obtain ⟨ho', hrow⟩ := hp t' (by simp)
+      obtain ⟨hbt, hrest⟩ := hb
+      obtain ⟨h1, h2⟩ := ih _ (fun t'' h' => hp t'' (by simp [h'])) hrest
+      refine ⟨⟨?_, ho', Or.inr hbt, h1⟩, h2⟩
+      rcases hrow with ⟨hm, htr, hch⟩ | hconv
+      · exact Or.inl ⟨hm, Txn.balanced_of_zero_charges t' htr hch⟩
+      · exact Or.inr hconv
+  obtain ⟨hpre, hassert⟩ := hsplit pre _ hrows hbal
+  exact run_rejects_inconsistent acct c hc hne date b₀ pre t post sc tr r hpre hshape ho (Or.inr hassert) hcons trs hl
+
+/-- the row of `C16_inconsistent_conversion_rejected` (`62.49 EUR @ 0.8 USD` against `-50.00 USD`) -/
+def exBadConvTxn : Txn :=
+  { date := ⟨2024, 1, 2⟩, payee := "shop", amount := ⟨⟨true, 5000, 2⟩, "USD"⟩, clearState := some .pending,
+    balance := some ⟨⟨false, 95000, 2⟩, "USD"⟩, rates := [("EUR", ⟨⟨false, 8, 1⟩, "USD"⟩)],
+    transferredAmount := some ⟨⟨false, 6249, 2⟩, "EUR"⟩ }
+
+/-- non-vacuity of `C16_conversion_necessary` / both directions of `C16_conversion_iff`: the importer produces
+converted rows of either kind -/
+example : csvImport exConvEnv (exConvCfg {}) exConvHeader
+    [["2024-01-02", "shop", "-50.00", "950.00", "0.8", "62.49", "EUR", ""]] = .ok [exBadConvTxn] := by rfl
+
+example : exBadConvTxn.ConvShape "USD" "EUR" ⟨false, 6249, 2⟩ ⟨false, 8, 1⟩ ∧
+    ¬ exBadConvTxn.ConvConsistent "USD" "EUR" ⟨false, 6249, 2⟩ ⟨false, 8, 1⟩ ∧
+    exConvTxn1.ConvShape "USD" "EUR" ⟨false, 6250, 2⟩ ⟨false, 8, 1⟩ ∧
+    exConvTxn1.ConvConsistent "USD" "EUR" ⟨false, 6250, 2⟩ ⟨false, 8, 1⟩ := by
+  refine ⟨⟨by decide, by decide, by decide +kernel, rfl, rfl, rfl, Or.inr ⟨rfl, rfl⟩⟩, ?_,
+    ⟨by decide, by decide, by decide +kernel, rfl, rfl, rfl, Or.inr ⟨rfl, rfl⟩⟩, ?_⟩
+  · intro h
+    have := h.2 ⟨rfl, rfl⟩
+    revert this
+    decide +kernel
+  · refine ⟨fun hp => ?_, fun _ => by decide +kernel⟩
+    have := hp.rateC
+    simp [exConvTxn1, AMap.get?] at this
 
 end Okane.Import
